@@ -323,10 +323,15 @@ def direct_cveq(M, rec, rng, reps):
         vsl = sorted(rng.sample(range(N), rng.randint(0, N)))
         vc = [rng.choice((math.inf, rng.uniform(5, 150), 0.0)) for _ in vsl]
         al, vf, rc, aa = rng.uniform(0, 0.3), rng.uniform(90, 130), rng.uniform(25, 40), rng.uniform(1.2, 3.2)
-        if rng.random() < 0.5:
-            EN.LinksEngine.controlled_Veq(np.array(rho), np.array(vc, dtype=float), vsl, al, vf, rc, aa)
-        else:
-            EC.LinksEngine.controlled_Veq(cs.DM(rho), cs.DM(vc), vsl, al, vf, rc, aa)
+        side = "numpy" if rng.random() < 0.5 else "casadi"
+        try:
+            if side == "numpy":
+                EN.LinksEngine.controlled_Veq(np.array(rho), np.array(vc, dtype=float), vsl, al, vf, rc, aa)
+            else:
+                EC.LinksEngine.controlled_Veq(cs.DM(rho), cs.DM(vc), vsl, al, vf, rc, aa)
+        except Exception as e:
+            rec.violation(f"{PROP}:controlled_Veq:{side}: raised {type(e).__name__} for {'no' if not vsl else 'some'} limited segment(s)",
+                          {"engine": side, "rho": rho, "v_ctrl": vc, "vsl": vsl, "alpha": al, "exception": repr(e)[:300]})
 
 
 def run(M, rec, tier, seed, k, n):
